@@ -98,7 +98,7 @@ pub const FUZZABLE: [&str; 18] =
 pub fn decode(prop: &str, data: &[u8]) -> Case {
     let mut u = U::new(data);
     let mut c = cfg(&mut u);
-    let ai = [0usize, 0, 1, 1, 2, 3, 4, 5, 6, 7][u.below(10)];
+    let ai = [0usize, 0, 1, 1, 2, 3, 4, 5, 6, 7, 8][u.below(11)];
     let alpha = gen::alphabet(ai);
     let max_pats = match prop {
         "C04" | "C16" => 24,
